@@ -5,6 +5,22 @@ From EV Require Import Base.Str Base.PyVal Model.Tokenize Model.Editions Model.F
                        Proofs.EditionsProofs Proofs.FilterProofs Proofs.PipeSpec.
 Open Scope Z_scope.
 
+(* the only fact about the searches that totality needs: the short-form antecedent pattern always
+   captures its antecedent group (m["antecedent"].strip() would raise on None) *)
+Definition search_total_ok (search : pat -> str -> option mres) : Prop :=
+  forall w m, search PShortAnte w = Some m ->
+    exists a b, gspan g_antecedent (m_groups m) = Some (a, b).
+
+Lemma search_total_ok_of_w : forall Wok search, search_ok_w Wok search -> search_total_ok search.
+Proof.
+  intros Wok search H w m Hs. destruct (H _ _ _ Hs) as (_ & _ & _ & _ & _ & Ha). exact (Ha eq_refl).
+Qed.
+
+Lemma search_total_ok_of_ok : forall search, search_ok search -> search_total_ok search.
+Proof.
+  intros search H w m Hs. destruct (H _ _ _ Hs) as (_ & _ & _ & _ & _ & Ha). exact (Ha eq_refl).
+Qed.
+
 Section PY.
   Variable search : pat -> str -> option mres.
   Variable refsearch : list (str * str) -> str -> list (nat * nat * list (str * option str)).
@@ -332,7 +348,7 @@ Section PY.
   Section Total.
     Variable words : list elem.
     Hypothesis Htoks : toks_ok source_of words.
-    Hypothesis Hsearch : search_ok search.
+    Hypothesis Hsearch : search_total_ok search.
 
     Lemma in_words_ok t : In (T t) words -> tok_ok source_of t.
     Proof.
@@ -375,8 +391,7 @@ Section PY.
         with (Some (if suffixb pg (t_data t) then pg else [])) by (destruct (suffixb pg (t_data t)); reflexivity).
       rewrite Hr.
       destruct (search PShortAnte _) as [m|] eqn:Em.
-      - destruct (Hsearch _ _ _ Em) as (_ & _ & _ & _ & _ & Ha).
-        destruct (Ha eq_refl) as (a & b & Hab).
+      - destruct (Hsearch _ _ Em) as (a & b & Hab).
         unfold mget. rewrite Hab. cbn [bind]. eexists; reflexivity.
       - cbn [bind]. eexists; reflexivity.
     Qed.
@@ -522,11 +537,12 @@ Proof.
   apply H2. apply H. exact H1.
 Qed.
 
-(* C04: extraction never raises on a well-formed token stream *)
-Theorem get_citations_total :
+(* C04: extraction never raises on a well-formed token stream; of the searches only the
+   antecedent clause is needed *)
+Theorem get_citations_total_w :
   forall search refsearch MAXC BACK D highest this_year edition_of source_of valid_name is_space
          text words cits ra,
-  cits_ok words cits -> toks_ok source_of words -> search_ok search ->
+  cits_ok words cits -> toks_ok source_of words -> search_total_ok search ->
   exists l,
     get_citations search refsearch MAXC BACK D highest this_year edition_of source_of valid_name is_space
       text words cits ra = Ok l.
@@ -538,4 +554,17 @@ Proof.
               is_space words Ht Hs text cits) with (acc := @nil pcit) as (acc & Hacc).
   { intros i t Hin. exact (Ht i t (Hc i t Hin)). }
   rewrite Hacc. cbn [bind]. eexists; reflexivity.
+Qed.
+
+Theorem get_citations_total :
+  forall search refsearch MAXC BACK D highest this_year edition_of source_of valid_name is_space
+         text words cits ra,
+  cits_ok words cits -> toks_ok source_of words -> search_ok search ->
+  exists l,
+    get_citations search refsearch MAXC BACK D highest this_year edition_of source_of valid_name is_space
+      text words cits ra = Ok l.
+Proof.
+  intros search refsearch MAXC BACK D highest this_year edition_of source_of valid_name is_space
+         text words cits ra Hc Ht Hs.
+  exact (get_citations_total_w _ _ _ _ _ _ _ _ _ _ _ _ _ _ _ Hc Ht (search_total_ok_of_ok _ Hs)).
 Qed.
